@@ -68,7 +68,8 @@ theorem serialQuery_fields (ver sess sn : Nat) (hs : sess < 65536) (hn : sn < 42
     simp only [serialQueryBytes, verOf, List.cons_append, List.getD_cons_zero]
     omega
   · have ht : typeOf (serialQueryBytes ver sess sn) = 1 := rfl
-    have hl : lenOf (serialQueryBytes ver sess sn) = 12 := rfl
+    have hl : lenOf (serialQueryBytes ver sess sn) = 12 := by
+      simp [lenOf, serialQueryBytes, toBE16, toBE32, be32]
     unfold checkSize
     simp only [ht, hl]
     rfl
@@ -81,12 +82,12 @@ theorem resetQuery_wf (ver : Nat) : WellFormedPdu ver (resetQueryBytes ver) := b
 theorem resetQuery_fields (ver : Nat) :
     typeOf (resetQueryBytes ver) = 2 ∧ be16 (resetQueryBytes ver) 2 = 0 ∧ (resetQueryBytes ver).length = 8 ∧
     (ver < 256 → verOf (resetQueryBytes ver) = ver) ∧ checkSize (resetQueryBytes ver) = true := by
-  refine ⟨rfl, rfl, rfl, ?_, ?_⟩
+  refine ⟨rfl, by simp [resetQueryBytes, toBE32, be16], rfl, ?_, ?_⟩
   · intro hv
     simp only [resetQueryBytes, verOf, List.cons_append, List.getD_cons_zero]
     omega
   · have ht : typeOf (resetQueryBytes ver) = 2 := rfl
-    have hl : lenOf (resetQueryBytes ver) = 8 := rfl
+    have hl : lenOf (resetQueryBytes ver) = 8 := by simp [lenOf, resetQueryBytes, toBE32, be32]
     unfold checkSize
     simp only [ht, hl]
     rfl
@@ -315,12 +316,14 @@ theorem sendAllLoop_calls : ∀ (fuel : Nat) (n : Net) (rest : List Nat) (total 
         | cons e q => simp
 
 /-- every entry of the send script is a (partial or complete) success -/
-def NoFail (q : List SendEv) : Prop := ∀ e ∈ q, e ≠ .err ∧ e ≠ .block
+def SendEv.isFail : SendEv → Bool
+  | .err => true
+  | .block => true
+  | _ => false
 
-instance (q : List SendEv) : Decidable (NoFail q) := by
-  unfold NoFail
-  have : DecidableEq SendEv := by intro a b; cases a <;> cases b <;> simp <;> infer_instance
-  infer_instance
+def NoFail (q : List SendEv) : Prop := ∀ e ∈ q, e.isFail = false
+
+instance (q : List SendEv) : Decidable (NoFail q) := by unfold NoFail; infer_instance
 
 theorem sendCall_ok_of_noFail (q : List SendEv) (rest : List Nat) (hq : NoFail q) (hr : rest ≠ []) :
     ∃ m, sendCall q rest = .ok rest.length m (rest.take m) ∧ 1 ≤ m ∧ m ≤ rest.length := by
@@ -331,8 +334,8 @@ theorem sendCall_ok_of_noFail (q : List SendEv) (rest : List Nat) (hq : NoFail q
   | cons e q =>
     have := hq e List.mem_cons_self
     cases e with
-    | err => exact absurd rfl this.1
-    | block => exact absurd rfl this.2
+    | err => cases this
+    | block => cases this
     | all => exact ⟨rest.length, by simp, hl, Nat.le_refl _⟩
     | part k =>
       refine ⟨if min k rest.length = 0 then 1 else min k rest.length, rfl, ?_, ?_⟩
